@@ -9,7 +9,7 @@ out = ["# Seeded changes\n",
        "was given only the text of one property and a scratch worktree of /repo, and was confirmed here: it applies,",
        "the 496-test suite still passes with it, the demo fails with it and passes without it.  None is committed to /repo.",
        "`harness/run_all_seeds.sh` re-applies each one and expects `VIOLATION property=<id>` from that property's check.",
-       "Three batches were produced (`-1/-2`, second batch for half of the properties, `-3/-4`); a `note` records when a",
+       "Six batches were produced (two changes per property and batch, numbered consecutively); a `note` records when a",
        "patch had to be rebased because a genuine defect in the same lines was repaired in /repo in the meantime.\n",
        "| change | files | what it needs to manifest | reported by | note |", "|---|---|---|---|---|"]
 
@@ -24,7 +24,8 @@ for d in sorted(glob.glob("/verif/seeded/*/")):
     m = json.load(open(d + "meta.json"))
     files = m.get("files_changed")
     files = ", ".join(os.path.basename(f) for f in files) if isinstance(files, list) else str(files)
-    if "initially missed" in str(m.get("caught_by", "")) + str(m.get("note", "")) or "missed by the first version" in str(m.get("note", "")):
+    if "initially missed" in str(m.get("caught_by", "")) + str(m.get("note", "")) or "missed by the first version" in str(m.get("note", "")) \
+            or "missed by the check as it stood" in str(m.get("note", "")):
         missed.append(n)
     out.append("| %s | %s | %s | %s | %s |" % (n, cell(files), cell(m.get("what_it_needs_to_manifest", ""))[:420],
                                                cell(m.get("caught_by", "")),
